@@ -355,6 +355,19 @@ def replay(cfg, ops, seed=0, always_consistent=False, clock=1600000000.0):
 def advance(s, op):
     """One step of a recorded history.  The marker {'op': 'reopen'} masters the image and continues
     on a fresh object that opened it; returns (session to continue with, Outcome)."""
+    if op['op'] == 'renew':
+        # marker: close() the object and make a new image (possibly of another configuration) in
+        # it; the history so far is dropped from the model, the accepted list keeps everything
+        from harness.model import Cfg as _Cfg
+        cfg2 = _Cfg.from_json(op['cfg'])
+        s2 = Session(cfg2, s.seed, s.always_consistent, reuse=s)
+        try:
+            s2.new()
+        except Exception as e:
+            return s, Outcome(False, type(e).__name__, 'new() in the closed object: %s' % e, innermost_pycdlib_frame(e))
+        s2.accepted = list(s.accepted) + [op]
+        s2.ops = list(s.ops) + [(op, Outcome(True))]
+        return s2, Outcome(True)
     if op['op'] != 'reopen':
         return s, s.step(op)
     img, oc = s.write()
